@@ -243,6 +243,39 @@ BOX_EDGE_CASES = [((0.0, 0.0, -500.0), d) for d in
 # the line of flight passes exactly through an edge / corner of the 1000 m cube (intersection == bound exactly)
 
 
+KEY_CYL_WALL = "cyl-exit-points-vertex-on-side-wall"
+
+
+def boundary_cases(rng, dims, cyl, n_extra):
+    """Vertices exactly ON the boundary (each face, edge, corner; cylinder: caps, rim, side wall) with
+    inward, outward, tangential, axis-parallel ({-1,0,1}^3, exact arithmetic) and generic directions."""
+    import itertools
+    lattice = [d for d in itertools.product((-1.0, 0.0, 1.0), repeat=3) if any(d)]
+    out = []
+    if cyl:
+        dr, dz = dims
+        xy = [(0.0, 0.0), (0.3 * dr, 0.4 * dr), (dr, 0.0), (0.0, -dr), (0.6 * dr, 0.8 * dr), (-dr, 0.0),
+              (dr * math.cos(1.0), dr * math.sin(1.0))]
+        verts = [(x, y, z) for x, y in xy for z in (0.0, -0.0, -dz, -dz / 2)
+                 if not (x * x + y * y < 0.99 * dr * dr and z == -dz / 2)]
+    else:
+        dx, dy, dz = dims
+        verts = [(x, y, z) for x in (-dx / 2, dx / 2, 0.0, 0.123 * dx) for y in (-dy / 2, dy / 2, 0.0) for z in (0.0, -0.0, -dz, -dz / 2)
+                 if not (abs(x) < dx / 2 and abs(y) < dy / 2 and z == -dz / 2)]
+    for v in verts:
+        for d in lattice:
+            out.append((v, d))
+        for _ in range(2):
+            out.append((v, earthref.rand_dir(rng)))
+    rng.shuffle(out)
+    keep = [c for c in out if c[1] in lattice][:n_extra] + [c for c in out if c[1] not in lattice][:n_extra // 3]
+    return keep
+
+
+def on_cyl_wall(dims, v):
+    return abs(v[0] * v[0] + v[1] * v[1] - dims[0] * dims[0]) <= 1e-9 * dims[0] * dims[0]
+
+
 class FakeParticle:
     def __init__(self, v, d):
         self.vertex = np.array(v, dtype=float)
@@ -269,13 +302,13 @@ def corr_exit(ctx, escalate):
     cases, expect, meta = [], [], []
     for dims in ((1000.0, 1000.0), (5000.0, 2800.0), (10.0, 3000.0)):
         gen = g.CylindricalGenerator(dims[0], dims[1], 1e9)
-        for v, d in particle_cases(rng, n, dims, True):
+        for v, d in boundary_cases(rng, dims, True, ctx.n(250, 2000)) + particle_cases(rng, n, dims, True):
             cases.append(PR_EXIT % ("M.cyl_exit_points %s %s %s %s" % (rx.ocf(dims[0]), rx.ocf(dims[1]), vec(v), vec(d))))
             expect.append(impl_exit(gen, v, d))
             meta.append({"gen": "cyl", "dims": dims, "vertex": v, "direction": d})
     for dims in ((1000.0, 1000.0, 1000.0), (10000.0, 250.0, 2800.0)):
         gen = g.RectangularGenerator(dims[0], dims[1], dims[2], 1e9)
-        for v, d in (BOX_EDGE_CASES if dims == (1000.0, 1000.0, 1000.0) else []) + particle_cases(rng, n, dims, False):
+        for v, d in (BOX_EDGE_CASES if dims == (1000.0, 1000.0, 1000.0) else []) + boundary_cases(rng, dims, False, ctx.n(400, 3000)) + particle_cases(rng, n, dims, False):
             cases.append(PR_EXIT % ("M.box_exit_points %s %s %s %s %s" % (rx.ocf(dims[0]), rx.ocf(dims[1]), rx.ocf(dims[2]), vec(v), vec(d))))
             expect.append(impl_exit(gen, v, d))
             meta.append({"gen": "box", "dims": dims, "vertex": v, "direction": d})
@@ -443,8 +476,9 @@ def slab_oracle(cyl, dims, v, d):
             b = v[0] * d[0] + v[1] * d[1]
             c = v[0] * v[0] + v[1] * v[1] - dr * dr
             disc = b * b - a * c
-            q = -(b + math.copysign(math.sqrt(disc), b)) if b != 0 else math.sqrt(disc)
-            roots = sorted([q / a, c / q])
+            disc = max(disc, 0.0)
+            q = -(b + math.copysign(math.sqrt(disc), b))
+            roots = sorted([q / a, c / q]) if q != 0 else [0.0, 0.0]       # q = 0: vertex on the wall, tangential line
             lo, hi = max(lo, roots[0]), min(hi, roots[1])
         slabs = [(2, -dz, 0.0)]
     else:
@@ -470,7 +504,7 @@ def probe_exit(ctx):
     for cyl, dims in ((True, (1000.0, 1000.0)), (True, (5000.0, 2800.0)), (False, (1000.0, 1000.0, 1000.0)), (False, (10000.0, 250.0, 2800.0))):
         gen = g.CylindricalGenerator(dims[0], dims[1], 1e9) if cyl else g.RectangularGenerator(dims[0], dims[1], dims[2], 1e9)
         plist = (fixed_cyl if cyl and dims == (1000.0, 1000.0) else []) + particle_cases(rng, n, dims, cyl)
-        exact = BOX_EDGE_CASES if dims == (1000.0, 1000.0, 1000.0) else []
+        exact = (BOX_EDGE_CASES if dims == (1000.0, 1000.0, 1000.0) else []) + boundary_cases(rng, dims, cyl, ctx.n(400, 3000))
         for j, (v, d) in enumerate(exact + plist):
             if j >= len(exact):
                 nrm = math.sqrt(sum(x * x for x in d))
@@ -485,7 +519,8 @@ def probe_exit(ctx):
             near_axis = cyl and (0 < abs(d[0]) < 1e-12 or 0 < abs(d[1]) < 1e-12)
             what = None
             if res is None:
-                what = "raises ValueError for a vertex strictly inside and a non-zero direction"
+                what = "raises ValueError for a vertex in the closed volume and a non-zero direction (the line meets the boundary at %r / %r)" % (
+                    tuple(v[i] + lo * d[i] for i in range(3)), tuple(v[i] + hi * d[i] for i in range(3)))
             else:
                 en, ex = res[:3], res[3:]
                 want_en = tuple(v[i] + lo * d[i] for i in range(3))
@@ -496,7 +531,7 @@ def probe_exit(ctx):
                 if not err <= tol:
                     what = "entry/exit %r / %r but the line meets the boundary at %r / %r (error %.3g m, tolerance %.3g m)" % (en, ex, want_en, want_ex, err, tol)
             if what:
-                key = KEY_CYL_NEAR_AXIS if near_axis else "exit-points:%s:%r:%r:%r" % ("cyl" if cyl else "box", dims, v, d)
+                key = KEY_CYL_WALL if (cyl and on_cyl_wall(dims, v)) else KEY_CYL_NEAR_AXIS if near_axis else "exit-points:%s:%r:%r:%r" % ("cyl" if cyl else "box", dims, v, d)
                 ctx.fail(key, "%s.get_exit_points(vertex=%r, direction=%r) with dimensions %r: %s" % (
                     "CylindricalGenerator" if cyl else "RectangularGenerator", v, d, dims, what), rep)
     ctx.extra["probe_exit_worst_error_over_tolerance"] = round(worst, 6)
